@@ -260,6 +260,11 @@ func (enc *Encoder) Literal(size int64, sync *ContinuationRequest) io.WriteClose
 	if sync != nil && enc.side == ConnSideServer {
 		panic("imapwire: sync must be nil on a server-side Encoder.Literal")
 	}
+	if enc.err != nil {
+		// The command has already failed (e.g. an earlier synchronizing
+		// literal was refused): the payload must not reach the connection
+		return errorWriter{enc.err}
+	}
 
 	// TODO: literal8
 	enc.writeString("{")
